@@ -53,7 +53,7 @@ func runC08Case(seed int64, idx int, tier string) *c08Result {
 	// set once a Write failed inside a rotation that was made to fail (see the writer below)
 	var failedRotation atomic.Bool
 	fail := func(key, f string, a ...any) {
-		if failedRotation.Load() && (strings.HasPrefix(key, "snapshot/") || strings.HasPrefix(key, "monotone/")) {
+		if failedRotation.Load() && (strings.HasPrefix(key, "snapshot/") || strings.HasPrefix(key, "monotone/")) && key != "snapshot/c04-hint-missing" {
 			// one key for the whole class: what the playlists look like after a Write failed half-way
 			// through a rotation is one finding, whatever invariant a particular response breaks.
 			// Panics, races, stuck requests and differing bodies keep their own keys.
@@ -353,6 +353,21 @@ func runC08Case(seed int64, idx int, tier string) *c08Result {
 					fail("panic/"+panicKey(resp.Panic), "request %s panicked: %s", url, resp.Panic)
 					continue
 				}
+				if (resp.Status == 404 || resp.Status == 0) && kind == "segment" && cur != nil && curStream != "" {
+					// the URI came from the playlist this reader saw last; the segment may have left the
+					// window since. If the stream's playlist still lists it now, it was listed all the
+					// time in between (windows only move forward) and had to be there.
+					if rq2, st2 := hx.Get(h.M.Handle, curStream+"_stream.m3u8"+q, 10*time.Second); st2 == hx.Done && rq2.Resp.Status == 200 {
+						if pl2 := m3u8x.Parse(rq2.Resp.Body); pl2.Media != nil {
+							for _, s2 := range pl2.Media.Segments {
+								if !s2.Gap && s2.URI == url {
+									fail("listed-not-found", "segment %s was not served (no handler) and is still listed by %s_stream.m3u8 afterwards", url, curStream)
+								}
+							}
+							count("not_found_segments_rechecked")
+						}
+					}
+				}
 				if resp.Status != 200 {
 					continue
 				}
@@ -567,6 +582,10 @@ func checkC08(tier string, seed int64) int {
 	cells := map[string]int{}
 	sigs := map[string]bool{}
 	var mu sync.Mutex
+	// alone in the process (the file size limit is process-wide): a disk write fault during a
+	// rotation, then more Writes and requests - no panic (see flushFault in c07.go)
+	hx.Install()
+	flushFault(rep, seed, obs, true)
 	ch := make(chan [2]int)
 	var wg sync.WaitGroup
 	// a few muxers in parallel: more interleavings per wall-clock second, and the race detector
